@@ -9,11 +9,14 @@ import CbiVerif.Spec.Prosser
 
 Model `M` = `CbiVerif.MX.cbiExpand` (the step machine the driver executes), spec `S` = `CbiVerif.Spec.Prosser.prosser`.
 
-* `Full` — the full-strength statement (kept visible; it is **false** for the code as it is: `full_fails`, witnesses
-  `D9_witness` … `D37_witness`, each replayed on the real code by the harness);
-* `object_like_partial` (model = recursive reference `E`), `object_like_conforms_partial` (model = `Spec.Prosser` itself on
-  object-like tables without `##`/`None`/`defined`), `terminates_objlike_partial`, `no_backstop_objlike` — proved part of
-  `Full`/termination;
+* `Full` — the full-strength statement (kept visible; it is still **false** for the code: `full_fails`, by the remaining
+  finding D10; `D10_witness`, `D12_witness_small` pin the findings that are still open, each is replayed on the real code by the
+  harness);
+* repaired findings, now positive statements: `D9_fixed`, `D9_chain_fixed`, `D11_fixed` (+ `D11_regression`: what the machine
+  did before the repair), `D35_fixed`, `D36_fixed`, `D37_fixed`, `literals_not_substituted`, `D40_fixed`, `D41_fixed`, `argument_tokens_not_substituted`;
+* `object_like_partial` (model = recursive reference `E` started with nothing disabled), `object_like_conforms_partial` (model =
+  `Spec.Prosser` itself on object-like tables without `##`/`defined`; macros named `None` included), `terminates_objlike_partial`,
+  `no_backstop_objlike` — proved part of `Full`/termination;
 * `backstop` — every table: never more than `max_level` nested streams; `backstop_result` — what the backstop returns;
 * `defined_operator_plain/_paren`, `defined_never_expands` — every table;
 * `cmdline_define_equiv_*` — `-DNAME`, `-DNAME=v`, `-D'NAME(args)=v'` ≡ the `#define` line (token lists).
@@ -40,13 +43,13 @@ theorem maxLevel_documented : CbiVerif.Gen.maxLevel = 200 := by decide
 
 /-- **object-like fragment of `Full`** (model side): for every table of object-like macros (`TblOK`: no parameters, keyed by
     their own name, no `defined` in bodies) with `|tbl| + 2 < max_level` and every text without `defined`, the stack machine
-    returns exactly the recursive hide-set expansion `E` with nesting budget `|tbl| + 1` — no error, no backstop, fuel not
-    exhausted. -/
+    returns exactly the recursive hide-set expansion `E` with nesting budget `|tbl| + 1`, started with no name disabled —
+    no error, no backstop, fuel not exhausted. -/
 theorem object_like_partial (tbl : Table) (ts : List Tok) (hT : TblOK tbl) (hnd : NoDef ts)
     (hsz : tbl.length + 2 < CbiVerif.Gen.maxLevel) :
-    cbiExpand tbl ts = .ok (E tbl (tbl.length + 1) ["None"] ts) := by
+    cbiExpand tbl ts = .ok (E tbl (tbl.length + 1) [] ts) := by
   unfold cbiExpand
-  exact expandWith_obj realCfg rfl tbl hT ts hnd hsz (fuelFor tbl ts) (by unfold fuelFor; omega)
+  exact expandWith_obj realCfg tbl hT ts hnd hsz (fuelFor tbl ts) (by unfold fuelFor; omega)
 
 /-- the hypotheses are satisfiable by a self- and mutually-recursive table; the result is the C standard's -/
 example :
@@ -58,9 +61,10 @@ example :
   refine ⟨tblOK_of_check _ (by decide +kernel), noDef_of_check _ (by decide +kernel), by decide, by decide +kernel⟩
 
 /-- **object-like fragment of `Full`, against the specification itself**: for every table of object-like macros whose
-    replacement lists contain no `##`, no `defined` and no identifier `None` (finding D35), every such text, `|tbl| + 2 <
-    max_level`, and as long as the specification's own fuel covers the expansion, the model of CBI's expander and Prosser's
-    hide-set algorithm (`Spec.Prosser.expand`) produce the same spellings — self- and mutually recursive definitions included. -/
+    replacement lists contain no `##` and no `defined`, every such text, `|tbl| + 2 < max_level`, and as long as the
+    specification's own fuel covers the expansion, the model of CBI's expander and Prosser's hide-set algorithm
+    (`Spec.Prosser.expand`) produce the same spellings — self- and mutually recursive definitions included, and (finding D35
+    being repaired) macros and identifiers named `None` included. -/
 theorem object_like_conforms_partial (tbl : Table) (ts : List Tok) (hT : PlainTbl tbl) (hts : ∀ t ∈ ts, PlainTok t) (hnd : NoDef ts)
     (hsz : tbl.length + 2 < CbiVerif.Gen.maxLevel)
     (hfuel : ts.length * Cb (bodyMax tbl) (tbl.length + 1) < CbiVerif.Spec.Prosser.defaultFuel) :
@@ -79,6 +83,14 @@ example :
     plainTblb tbl = true ∧ ts.all plainTokb = true ∧ ts.length * Cb (bodyMax tbl) (tbl.length + 1) < CbiVerif.Spec.Prosser.defaultFuel := by
   decide +kernel
 
+/-- … and for a table that defines and uses a macro named `None` (excluded before the repair of D35) -/
+example :
+    let tbl : Table := [("None", ⟨"None", none, false, false, [], [⟨.num, "1", false, true⟩, ⟨.ident, "None", true, true⟩]⟩)]
+    let ts : List Tok := [⟨.ident, "None", false, true⟩]
+    plainTblb tbl = true ∧ ts.all plainTokb = true ∧ ts.length * Cb (bodyMax tbl) (tbl.length + 1) < CbiVerif.Spec.Prosser.defaultFuel ∧
+      (match cbiExpand tbl ts with | .ok r => r.map (·.text) | _ => []) = ["1", "None"] := by
+  decide +kernel
+
 /-- **termination (object-like)**: the fuel `fuelFor tbl ts` granted by `cbiExpand` suffices -/
 theorem terminates_objlike_partial (tbl : Table) (ts : List Tok) (hT : TblOK tbl) (hnd : NoDef ts)
     (hsz : tbl.length + 2 < CbiVerif.Gen.maxLevel) : cbiExpand tbl ts ≠ .fuel := by
@@ -88,9 +100,9 @@ theorem terminates_objlike_partial (tbl : Table) (ts : List Tok) (hT : TblOK tbl
     200-level backstop plays no role for object-like tables with `|tbl| + 2 < max_level` -/
 theorem no_backstop_objlike (tbl : Table) (ts : List Tok) (hT : TblOK tbl) (hnd : NoDef ts)
     (hsz : tbl.length + 2 < CbiVerif.Gen.maxLevel) :
-    cbiExpand tbl ts = expandWith { lim := tbl.length + 3, adv := false } tbl (fuelFor tbl ts) ts := by
+    cbiExpand tbl ts = expandWith { lim := tbl.length + 3 } tbl (fuelFor tbl ts) ts := by
   rw [object_like_partial tbl ts hT hnd hsz]
-  exact (expandWith_obj { lim := tbl.length + 3, adv := false } rfl tbl hT ts hnd (by simp) (fuelFor tbl ts)
+  exact (expandWith_obj { lim := tbl.length + 3 } tbl hT ts hnd (by simp) (fuelFor tbl ts)
     (by unfold fuelFor; omega)).symm
 
 /-! ## every table: the backstop -/
@@ -106,8 +118,8 @@ theorem backstop (tbl : Table) (ts : List Tok) (k : Nat) (s : MS)
 /-- **what the backstop returns** (finding D12): when an enabled object-like macro name is met while `max_level - 1` streams
     are already nested (no suspended argument pre-expansion), the whole expansion is replaced by the single token `0` -/
 theorem backstop_result (c : Cfg) (tbl : Table) (P R : List (Option Tok)) (t : Tok) (m : Macro) (pr : Bool) (S : List MX.Helper)
-    (D : List String) (n : Nat)
-    (hk : t.kind = .ident) (hd : t.text ≠ "defined") (he : t.expandable = true) (hD : D.contains t.text = false)
+    (D : NoExp) (n : Nat)
+    (hk : t.kind = .ident) (hd : t.text ≠ "defined") (he : t.expandable = true) (hD : D.contains (some t.text) = false)
     (hm : tbl.get t.text = some m) (ho : m.args = none) (hdeep : S.length + 2 ≥ c.lim) :
     run c tbl (n + 2) ⟨⟨P ++ some t :: R, P.length, pr⟩ :: S, D, [], none⟩ = .ok [zeroTok] := by
   have hnl : ¬ (P.length ≥ (P ++ some t :: R).length) := by simp
@@ -122,7 +134,7 @@ theorem backstop_result (c : Cfg) (tbl : Table) (P R : List (Option Tok)) (t : T
 
 example : ∃ (c : Cfg) (tbl : Table) (t : Tok) (m : Macro) (S : List MX.Helper),
     t.kind = .ident ∧ t.text ≠ "defined" ∧ t.expandable = true ∧ tbl.get t.text = some m ∧ m.args = none ∧ S.length + 2 ≥ c.lim :=
-  ⟨⟨2, false⟩, [("A", ⟨"A", none, false, false, [], []⟩)], ⟨.ident, "A", false, true⟩, ⟨"A", none, false, false, [], []⟩, [],
+  ⟨⟨2, true⟩, [("A", ⟨"A", none, false, false, [], []⟩)], ⟨.ident, "A", false, true⟩, ⟨"A", none, false, false, [], []⟩, [],
     rfl, by decide, rfl, rfl, rfl, by decide⟩
 
 /-! ## `defined` -/
@@ -130,14 +142,14 @@ example : ∃ (c : Cfg) (tbl : Table) (t : Tok) (m : Macro) (S : List MX.Helper)
 /-- **`defined X`**: for every table, every context (prefix, rest of the stream, lower streams, disabled names, suspended
     calls) one iteration replaces the two tokens by the number `1`/`0` read from the table and moves past it: `X` is consumed,
     never looked up for expansion -/
-theorem defined_operator_plain (c : Cfg) (tbl : Table) (P R : List (Option Tok)) (S : List MX.Helper) (D : List String) (F : List Frame)
+theorem defined_operator_plain (c : Cfg) (tbl : Table) (P R : List (Option Tok)) (S : List MX.Helper) (D : NoExp) (F : List Frame)
     (pr : Bool) (dt x : Tok) (hd : dt.kind = .ident) (hdt : dt.text = "defined") (hx : x.kind = .ident) (hxp : x.text ≠ "(") :
     step c tbl ⟨⟨P ++ some dt :: some x :: R, P.length, pr⟩ :: S, D, F, none⟩
       = .cont ⟨⟨P ++ none :: some (numTok (if (tbl.get x.text).isSome then "1" else "0") x.pw) :: R, P.length + 2, pr⟩ :: S, D, F, none⟩ :=
   step_defined_plain c tbl P R S D F pr dt x hd hdt hx hxp
 
 /-- **`defined ( X )`** -/
-theorem defined_operator_paren (c : Cfg) (tbl : Table) (P R : List (Option Tok)) (S : List MX.Helper) (D : List String) (F : List Frame)
+theorem defined_operator_paren (c : Cfg) (tbl : Table) (P R : List (Option Tok)) (S : List MX.Helper) (D : NoExp) (F : List Frame)
     (pr : Bool) (dt lp x rp : Tok) (hd : dt.kind = .ident) (hdt : dt.text = "defined") (hlp : lp.text = "(") (hx : x.kind = .ident)
     (hrp : rp.text = ")") :
     step c tbl ⟨⟨P ++ some dt :: some lp :: some x :: some rp :: R, P.length, pr⟩ :: S, D, F, none⟩
@@ -149,9 +161,9 @@ theorem defined_operator_paren (c : Cfg) (tbl : Table) (P R : List (Option Tok))
 theorem defined_never_expands (tbl : Table) (dt x : Tok) (hd : dt.kind = .ident) (hdt : dt.text = "defined") (hx : x.kind = .ident)
     (hxp : x.text ≠ "(") :
     cbiExpand tbl [dt, x] = .ok [numTok (if (tbl.get x.text).isSome then "1" else "0") x.pw] := by
-  have h1 := defined_operator_plain realCfg tbl [] [] [] ["None"] [] false dt x hd hdt hx hxp
+  have h1 := defined_operator_plain realCfg tbl [] [] [] [none] [] false dt x hd hdt hx hxp
   simp only [List.nil_append, List.length_nil, Nat.zero_add] at h1
-  have h2 : step realCfg tbl ⟨[⟨[none, some (numTok (if (tbl.get x.text).isSome then "1" else "0") x.pw)], 2, false⟩], ["None"], [], none⟩
+  have h2 : step realCfg tbl ⟨[⟨[none, some (numTok (if (tbl.get x.text).isSome then "1" else "0") x.pw)], 2, false⟩], [none], [], none⟩
       = .cont ⟨[], [], [], some [numTok (if (tbl.get x.text).isSome then "1" else "0") x.pw]⟩ := by
     simp [step, eopState, MX.filterSome]
   have h3 : step realCfg tbl ⟨[], [], [], some [numTok (if (tbl.get x.text).isSome then "1" else "0") x.pw]⟩
@@ -233,7 +245,8 @@ example : (defineCmdline "F(x,y)=x+y*2").toOption.map (fun m => (m.name, m.args,
     = (defineLine "#define F(x,y) x+y*2").toOption.map (fun m => (m.name, m.args, m.needsExp, m.replacement)) := by
   decide +kernel
 
-/-! ## witnesses of the recorded findings: model ≠ spec on concrete inputs (each is replayed on the real code) -/
+/-! ## findings: repaired ones as positive statements (model = spec on the former witnesses), open ones as witnesses of
+   model ≠ spec (each is replayed on the real code by the harness) -/
 
 open CbiVerif.Spec.Prosser in
 /-- spellings the specification assigns (`none` = outside well-formedness) -/
@@ -242,76 +255,98 @@ def specText (defs : List String) (text : String) : Option (List String) :=
   | .ok out => some (out.map (·.text))
   | .error _ => none
 
-/-- D9: an empty argument as right operand of `##` → IndexError (conforming: `x`) -/
-theorem D9_witness : expandText [] ["CAT(a,b) a##b"] "CAT(x,)" = .error .index ∧ specText ["CAT(a,b) a##b"] "CAT(x,)" = some ["x"] := by
+/-- D9 (repaired): an empty argument as an operand of `##` is a placemarker -/
+theorem D9_fixed : expandText [] ["CAT(a,b) a##b"] "CAT(x,) CAT(,y) CAT(,) CAT(x,y)" = .ok ["x", "y", "xy"] ∧
+    specText ["CAT(a,b) a##b"] "CAT(x,) CAT(,y) CAT(,) CAT(x,y)" = some ["x", "y", "xy"] := by
   decide +kernel
 
-/-- D10: `#` keeps a leading blank and drops the quotes of character constants -/
+/-- D9 (repaired), chains: two empty operands give a placemarker, which is the left operand of the next `##` — not the token in
+    front of the chain -/
+theorem D9_chain_fixed : expandText [] ["CAT3(a,b,c) q a##b##c"] "CAT3(,,z) CAT3(x,,z) CAT3(,,)" = .ok ["q", "z", "q", "xz", "q"] ∧
+    specText ["CAT3(a,b,c) q a##b##c"] "CAT3(,,z) CAT3(x,,z) CAT3(,,)" = some ["q", "z", "q", "xz", "q"] := by
+  decide +kernel
+
+/-- D10 (open): `#` keeps a leading blank and drops the quotes of character constants -/
 theorem D10_witness : expandText [] ["STR(x) #x"] "STR( a ) STR('a')" = .ok ["\" a\"", "\"a\""] ∧
     specText ["STR(x) #x"] "STR( a ) STR('a')" = some ["\"a\"", "\"'a'\""] := by
   decide +kernel
 
-/-- D11: `f(a) a*g`, `g(a) f(a)`: `f(2)(9)` expands to nothing (conforming: `2*9*g`) -/
-theorem D11_witness : expandText [] ["f(a) a*g", "g(a) f(a)"] "f(2)(9)" = .ok [] ∧
+/-- D11 (repaired): `f(a) a*g`, `g(a) f(a)`: the call `g(9)` is completed by the tokens that follow `f(2)` -/
+theorem D11_fixed : expandText [] ["f(a) a*g", "g(a) f(a)"] "f(2)(9)" = .ok ["2", "*", "9", "*", "g"] ∧
     specText ["f(a) a*g", "g(a) f(a)"] "f(2)(9)" = some ["2", "*", "9", "*", "g"] := by
   decide +kernel
 
-/-- D11 is the `splice` position: with `adv := true` (what `splice`'s docstring says) the same machine is conforming here -/
-theorem D11_cause :
+/-- what D11 was: the same machine with `splice` leaving the read position before the spliced-in tokens (`adv := false`)
+    swallows the replacement's own tokens and expands `f(2)(9)` to nothing -/
+theorem D11_regression :
     (match buildTable [] ["f(a) a*g", "g(a) f(a)"] with
-     | .ok tbl => (match expandWith { lim := CbiVerif.Gen.maxLevel, adv := true } tbl 1000 (tokenize "f(2)(9)") with
+     | .ok tbl => (match expandWith { lim := CbiVerif.Gen.maxLevel, adv := false } tbl 1000 (tokenize "f(2)(9)") with
         | .ok r => some (r.map spellTok) | _ => none)
-     | .error _ => none) = some ["2", "*", "9", "*", "g"] := by
+     | .error _ => none) = some [] := by
   decide +kernel
 
-/-- D35: a macro named `None` is never expanded, for **every** table (found by the proof of `object_like_partial`:
-    `expand` starts with the disabled-name list `[str(None)]`) -/
-theorem D35_None_never_expands (tbl : Table) (t : Tok) (hk : t.kind = .ident) (ht : t.text = "None") :
-    cbiExpand tbl [t] = .ok [paint t] := by
-  have hk' : (t.kind != TKind.ident) = false := by simp [hk]
-  have h1 : step realCfg tbl (initState [t]) = .cont ⟨[⟨[some (paint t)], 1, false⟩], ["None"], [], none⟩ := by
-    simp [step, initState, hk', ht]
-  have h2 : step realCfg tbl ⟨[⟨[some (paint t)], 1, false⟩], ["None"], [], none⟩ = .cont ⟨[], [], [], some [paint t]⟩ := by
-    simp [step, eopState, MX.filterSome]
-  have h3 : step realCfg tbl ⟨[], [], [], some [paint t]⟩ = .done [paint t] := by simp [step]
-  have hl : realCfg.lim ≠ 0 := by simp only [realCfg]; rw [maxLevel_documented]; decide
-  unfold cbiExpand expandWith
-  simp only [hl, if_false, List.isEmpty_cons, Bool.false_eq_true]
-  have h3steps : run realCfg tbl 3 (initState [t]) = .ok [paint t] := by
-    simp only [run, h1, h2, h3]
-  exact run_mono_fuel realCfg tbl 3 _ _ h3steps _ (by unfold fuelFor; omega)
-
-theorem D35_witness : expandText ["None=1"] [] "None" = .ok ["None"] ∧ specText ["None 1"] "None" = some ["1"] := by
+/-- D35 (repaired): a macro named `None` is an ordinary macro (the general statement is `object_like_conforms_partial`, which no
+    longer excludes the name) -/
+theorem D35_fixed : expandText ["None=1"] [] "None" = .ok ["1"] ∧ specText ["None 1"] "None" = some ["1"] := by
   decide +kernel
 
-/-- D36: a variadic macro that does not name its variadic parameter → IndexError -/
-theorem D36_witness : expandText [] ["V(...) 1"] "V(2)" = .error .index ∧ specText ["V(...) 1"] "V(2)" = some ["1"] := by
+/-- D36 (repaired): a variadic macro that does not name its variadic parameter can be called -/
+theorem D36_fixed : expandText [] ["V(...) 1"] "V(2) V() V(1,2)" = .ok ["1", "1", "1"] ∧
+    specText ["V(...) 1"] "V(2) V() V(1,2)" = some ["1", "1", "1"] := by
   decide +kernel
 
-/-- D37: a string literal whose content is a parameter name is substituted -/
-theorem D37_witness : expandText [] ["F(x) \"x\" x"] "F(1)" = .ok ["1", "1"] ∧ specText ["F(x) \"x\" x"] "F(1)" = some ["\"x\"", "1"] := by
+/-- D37 (repaired): a string literal whose content is a parameter name is not a parameter -/
+theorem D37_fixed : expandText [] ["F(x) \"x\" x"] "F(1)" = .ok ["\"x\"", "1"] ∧ specText ["F(x) \"x\" x"] "F(1)" = some ["\"x\"", "1"] := by
   decide +kernel
+
+/-- D37 (repaired), for every parameter list and every argument list: the final substitution loop copies a token that is not
+    an identifier, whatever its text -/
+theorem literals_not_substituted (params : List String) (ia : List Arg) (t : Tok) (b : Bool) (rest : List (Tok × Bool)) (h : t.kind ≠ .ident) :
+    substArgs params ia ((t, b) :: rest) = (match substArgs params ia rest with | .ok r => .ok (t :: r) | .error x => .error x) := by
+  have hk : (t.kind == TKind.ident) = false := by simpa using h
+  simp only [substArgs, paramIdx, hk, Bool.false_eq_true, if_false, ite_self]
+  cases substArgs params ia rest <;> rfl
+
+/-- D41 (repaired), for every parameter list and every argument list: a token that `#`/`##` produced from the arguments
+    (marked `is_arg`) is copied by the final substitution loop even if it is spelled like a parameter -/
+theorem argument_tokens_not_substituted (params : List String) (ia : List Arg) (t : Tok) (rest : List (Tok × Bool)) :
+    substArgs params ia ((t, true) :: rest) = (match substArgs params ia rest with | .ok r => .ok (t :: r) | .error x => .error x) := by
+  simp only [substArgs, if_true]
+  cases substArgs params ia rest <;> rfl
+
+/-- D41 (repaired) on the former witness -/
+theorem D41_fixed : expandText [] ["F(x,y) 1 ## y x"] "F(2, _ x)" = .ok ["1_", "x", "2"] ∧
+    specText ["F(x,y) 1 ## y x"] "F(2, _ x)" = some ["1_", "x", "2"] := by
+  decide +kernel
+
+/-- D40 (repaired): an argument that is only the operand of `#` is not macro-expanded, so a call inside it is not evaluated
+    (the leading blank inside the string is the open finding D10) -/
+theorem D40_fixed : expandText [] ["S(x, y) #y", "T(a, b) a b"] "S(1, T(2))" = .ok ["\" T(2)\""] ∧
+    specText ["S(x, y) #y", "T(a, b) a b"] "S(1, T(2))" = some ["\"T(2)\""] := by
+  decide +kernel
+
+example : ∃ t : Tok, t.kind ≠ .ident ∧ t.text = "x" := ⟨⟨.str, "x", false, true⟩, by decide, rfl⟩
 
 /-- D12 on a small instance of the same machine: with nesting limit 3 the chain `A → B → C → 7` is cut to `0`
     (the harness replays the 200-level instance on the real code; `backstop_result` is the general statement) -/
 theorem D12_witness_small :
     (match buildTable [] ["A B", "B C", "C 7"] with
-     | .ok tbl => (match expandWith { lim := 3, adv := false } tbl 1000 (tokenize "A") with
+     | .ok tbl => (match expandWith { lim := 3 } tbl 1000 (tokenize "A") with
         | .ok r => some (r.map spellTok) | _ => none)
      | .error _ => none) = some ["0"] ∧ specText ["A B", "B C", "C 7"] "A" = some ["7"] := by
   decide +kernel
 
-/-- the full statement does not hold for the code as it is (D11 is a counterexample) -/
+/-- the full statement does not hold for the code as it is (the remaining finding D10 is a counterexample) -/
 theorem full_fails : ¬ Full := by
   intro h
-  have hs := D11_witness.2
-  have hm := D11_witness.1
+  have hs := D10_witness.2
+  have hm := D10_witness.1
   unfold specText at hs
-  cases hp : CbiVerif.Spec.Prosser.prosser ["f(a) a*g", "g(a) f(a)"] "f(2)(9)" with
+  cases hp : CbiVerif.Spec.Prosser.prosser ["STR(x) #x"] "STR( a ) STR('a')" with
   | error e => simp [hp] at hs
   | ok out =>
     simp only [hp, Option.some.injEq] at hs
-    have := h [] ["f(a) a*g", "g(a) f(a)"] "f(2)(9)" out (by simpa using hp)
+    have := h [] ["STR(x) #x"] "STR( a ) STR('a')" out (by simpa using hp)
     rw [hm, hs] at this
     exact absurd this (by decide)
 
